@@ -6,6 +6,7 @@ import (
 	"fmt"
 	"go/token"
 	"go/types"
+	"os"
 	"strings"
 
 	"golang.org/x/tools/go/ssa"
@@ -232,8 +233,89 @@ func runC20(c *Ctx) {
 		if nScan != 1 {
 			bad = fmt.Sprintf("UNDECIDED: expected one scan loop over the offsets, found %d", nScan)
 		} else {
+			// pos: the offset at which the markers are tested in an iteration.  Plain scan: the loop
+			// index itself, stepping by one.  Skipping scan: h = i + Index(body[i:bound], c) for the one
+			// byte c every marker starts with, the index continuing at h + 1: the offsets passed over
+			// hold no c, so no marker can match there (library contract of Index; case folding of c by
+			// FoldAxioms), and the offsets with a c are visited in ascending order.
+			pos := ct.Idx
+			skipMiss := False
 			if v, ok := ct.Init.IntVal(); !ok || v != 0 || !ct.StepOK || ct.Step != 1 {
-				bad = "the scan does not go 0,1,2,... (a later marker could be returned first, or offsets skipped)"
+				okSkip := false
+				if ok && v == 0 {
+					for _, r := range s.Rets {
+						h := r.Vals[0]
+						if r.Cond == False || h.Op != "bin" || h.Aux != "+" {
+							continue
+						}
+						var nx *E
+						for _, a := range h.Args {
+							if a.Op == "call" && a.Aux == "strings.Index" && len(a.Args) == 2 {
+								nx = a
+							}
+						}
+						if nx == nil {
+							continue
+						}
+						c0, isC := nx.Args[1].StrVal()
+						hay := nx.Args[0]
+						// the haystack is body[i:bound] with the loop's own bound
+						var bound *E
+						for _, at := range u.AtomsOf(ct.Cont) {
+							if at.Op == "lt" && at.Args[0] == ct.Idx {
+								bound = at.Args[1]
+							}
+						}
+						okHay := bound != nil
+						for hl, hc := range u.Leaves(hay) {
+							if hc == False {
+								continue
+							}
+							hi := u.Len(body)
+							if hl.Op == "slice" && hl.Args[2] != nil {
+								hi = hl.Args[2]
+							}
+							if !(hl.Op == "slice" && hl.Args[0] == body && hl.Args[1] == ct.Idx && bound != nil && u.Specialize(bound, hc) == hi) {
+								okHay = false
+							}
+						}
+						okH := (h.Args[0] == ct.Idx && h.Args[1] == nx) || (h.Args[1] == ct.Idx && h.Args[0] == nx)
+						// the index continues right after the tested offset
+						okNext := false
+						for i, p := range l.Header.Preds {
+							if l.Blocks[p] {
+								if os.Getenv("UFCHECK_DEBUG_C20") != "" {
+									fmt.Println("C20 next value:", u.Show(s.Env[ct.Phi.Edges[i]]), "h:", u.Show(h))
+								}
+								if nv := s.Env[ct.Phi.Edges[i]]; nv != nil {
+									L := NewLin(u)
+									want := L.linearize(u.Bin(token.ADD, h, u.Int(1), types.Typ[types.Int]))
+									got := L.linearize(nv)
+									if L.entails(got, want, 0) && L.entails(want, got, 0) {
+										okNext = true
+									}
+								}
+							}
+						}
+						okMarkers := isC && len(c0) == 1 && c0[0] < 0x80 && !(c0[0] >= 'a' && c0[0] <= 'z') && !(c0[0] >= 'A' && c0[0] <= 'Z')
+						for _, m := range []string{"</head", "<link", "<script", "<style"} {
+							if !isC || len(c0) != 1 || m[0] != c0[0] {
+								okMarkers = false
+							}
+						}
+						if os.Getenv("UFCHECK_DEBUG_C20") != "" {
+							fmt.Println("C20 skip:", okHay, okH, okNext, okMarkers, "bound", u.Show(bound))
+						}
+						if okHay && okH && okNext && okMarkers {
+							okSkip = true
+							pos = h
+							skipMiss = u.ToBool(u.Lt(nx, u.Int(0)))
+						}
+					}
+				}
+				if !okSkip {
+					bad = "the scan does not go 0,1,2,... (a later marker could be returned first, or offsets skipped)"
+				}
 			}
 			for _, L := range []int64{0, 1, 9, win - 1, win, win + 1, 3 * win} {
 				for _, i := range []int64{0, 1, L - 1, L, win - 1, win, win + 1} {
@@ -255,9 +337,9 @@ func runC20(c *Ctx) {
 			intT, strT, boolT := types.Typ[types.Int], types.Typ[types.String], types.Typ[types.Bool]
 			wantHit := False
 			for _, m := range []string{"</head", "<link", "<script", "<style"} {
-				end := u.Bin(token.ADD, ct.Idx, u.Int(int64(len(m))), intT)
+				end := u.Bin(token.ADD, pos, u.Int(int64(len(m))), intT)
 				fits := u.bdd.Not(u.ToBool(u.Lt(u.Len(body), end)))
-				win1 := u.Slice(body, ct.Idx, end, nil, strT)
+				win1 := u.Slice(body, pos, end, nil, strT)
 				eq := u.bdd.Or(u.ToBool(u.LibCall("strings.EqualFold", boolT, win1, u.Str(m))), False)
 				if alt := u.LibCall("strings.EqualFold", boolT, u.Str(m), win1); u.atomIx[alt.key] != 0 || alt.Op == "bool" {
 					// the comparison written the other way round
@@ -273,7 +355,7 @@ func runC20(c *Ctx) {
 			for _, r := range s.Rets {
 				switch {
 				case r.Cond == False:
-				case r.Vals[0] == ct.Idx:
+				case r.Vals[0] == pos:
 					gotHit = u.bdd.Or(gotHit, r.Cond)
 				case isIntConst(r.Vals[0], -1):
 					gotMiss = u.bdd.Or(gotMiss, r.Cond)
@@ -282,7 +364,7 @@ func runC20(c *Ctx) {
 				}
 			}
 			if bad == "" {
-				hitDiff := u.bdd.Xor(gotHit, u.bdd.And(body0, wantHit))
+				hitDiff := u.bdd.Xor(gotHit, u.bdd.And(u.bdd.And(body0, u.bdd.Not(skipMiss)), wantHit))
 				hitOK := hitDiff == False
 				if !hitOK {
 					// equal up to arithmetic and "EqualFold(X[i:..], \"<...\") implies X[i] == '<'" (a pre-test on the first byte)
@@ -293,7 +375,7 @@ func runC20(c *Ctx) {
 					bad = "the finder returns " + other + ", documented: the first offset with a match, or -1"
 				case !hitOK:
 					bad = "the finder does not return an offset exactly when one of </head, <link, <style, <script matches there (case-insensitively, within the whole body): differs when " + clip(u.ShowBool(hitDiff), 240)
-				case !u.bdd.Implies(gotMiss, u.bdd.Not(ct.Cont)) || gotMiss == False:
+				case !u.bdd.Implies(gotMiss, u.bdd.Or(u.bdd.Not(ct.Cont), skipMiss)) || gotMiss == False:
 					bad = "the finder does not return -1 exactly after the window is exhausted"
 				}
 			}
